@@ -107,18 +107,28 @@ CtxOf(e) == IF "__ctx__" \in DOMAIN e THEN e["__ctx__"] ELSE [k |-> "none"]
 RECURSIVE Prefix(_, _)
 Prefix(stk, sc) == IF Len(stk) <= 1 \/ stk[Len(stk)].line = sc THEN stk ELSE Prefix(SubSeq(stk, 1, Len(stk) - 1), sc)
 
+\* the same bound with the negative zero counted a member of every numeric part (to name what exactly is missing)
+RECURSIVE NZ(_)
+NZ(F) == IF "af" \in DOMAIN F THEN [F EXCEPT !.nz = TRUE]
+         ELSE IF "set" \in DOMAIN F THEN [set |-> Append(F.set, Zero(1))]
+         ELSE IF "list" \in DOMAIN F THEN [list |-> NZ(F.list)]
+         ELSE IF "tuple" \in DOMAIN F THEN [tuple |-> [j \in 1..Len(F.tuple) |-> NZ(F.tuple[j])]]
+         ELSE F
+
 Say(clause, what) == PrintT(<<"MM", Run.tid, clause, what>>)
 
 \* every failing fact about one definition (printed); TRUE always, the count is kept in `bad`
 FactFails(f, v) ==
     {c \in {"value-does-not-have-the-inferred-type", "list-does-not-have-the-inferred-length", "value-outside-the-reported-classes",
-            "expression-reported-constant-evaluates-differently", "inferred-format-misses-value"} :
+            "expression-reported-constant-evaluates-differently", "inferred-format-misses-value",
+            "inferred-format-misses-negative-zero"} :
         CASE c = "value-does-not-have-the-inferred-type" -> ~ShapeD(v, f.ty)
           [] c = "list-does-not-have-the-inferred-length" -> ~Run.exc /\ ~SizeD(v, f.sz)
           [] c = "value-outside-the-reported-classes" ->
                 (IsNumV(v) \/ v.k = "big") /\ "top" \notin SeqSet(f.vc) /\ ClassD(v) \notin SeqSet(f.vc)
           [] c = "expression-reported-constant-evaluates-differently" -> Len(f.pe) = 1 /\ ~SameD(v, f.pe[1])
-          [] c = "inferred-format-misses-value" -> Len(f.fmt) = 1 /\ ~MemDV(v, f.fmt[1])}
+          [] c = "inferred-format-misses-value" -> Len(f.fmt) = 1 /\ ~MemDV(v, f.fmt[1]) /\ ~MemDV(v, NZ(f.fmt[1]))
+          [] c = "inferred-format-misses-negative-zero" -> Len(f.fmt) = 1 /\ ~MemDV(v, f.fmt[1]) /\ MemDV(v, NZ(f.fmt[1]))}
 
 DefFails(defs, e) ==
     UNION {{<<c, defs[j].n>> : c \in FactFails(defs[j], e[defs[j].n])} : j \in {j \in 1..Len(defs) : defs[j].n \in DOMAIN e}}
@@ -209,7 +219,8 @@ Finish ==
            F == (IF Len(rf.pe) = 1 /\ ~SameD(Run.ret[1], rf.pe[1])
                  THEN {<<"expression-reported-constant-evaluates-differently", "returned value">>} ELSE {})
                 \cup (IF Len(rf.fmt) = 1 /\ ~MemDV(Run.ret[1], rf.fmt[1])
-                      THEN {<<"inferred-format-misses-value", "returned value">>} ELSE {})
+                      THEN {<<IF MemDV(Run.ret[1], NZ(rf.fmt[1])) THEN "inferred-format-misses-negative-zero"
+                              ELSE "inferred-format-misses-value", "returned value">>} ELSE {})
            G == IF Len(P.pure) = 1 /\ P.pure[1] /\ Run.mut
                 THEN {<<"function-reported-pure-writes-a-list-of-its-caller", P.name>>} ELSE {}
        IN  /\ Report(F \cup G) /\ bad' = bad + Cardinality(F \cup G)
